@@ -1,7 +1,7 @@
 (* C13 property theorems: statements only, each closed by [exact]. *)
 From Boltons Require Import Lib.Prelude Spec.C13_Spec Model.C13_Model
      Model.C13_Text Gen.C13_Gen Proofs.C13_Text
-     Check.C13_Check Proofs.C13_Bind Proofs.C13_Shape Proofs.C13_Sig Proofs.C13_Main Proofs.C13_Holds Proofs.C13_Tie.
+     Check.C13_Check Proofs.C13_Bind Proofs.C13_Shape Proofs.C13_Sig Proofs.C13_Main Proofs.C13_Holds Proofs.C13_Stack Proofs.C13_Tie.
 
 (* wraps(f)(wrapper): the same signature (parameters, kinds, defaults on the same
    parameters, annotations, return annotation), __name__, __doc__, __module__,
@@ -11,7 +11,7 @@ Theorem C13_same_sig : forall f, wf_func f ->
     sig_of (b_func g) = sig_of f /\
     f_name (b_func g) = f_name f /\ f_doc (b_func g) = f_doc f /\
     f_module (b_func g) = f_module f /\ f_async (b_func g) = f_async f /\
-    b_wrapped_is_func g = true /\
+    d_get (f_dict (b_func g)) K_WRAPPED = Some (f_id f) /\
     b_inv g = inv_of_params (sg_params (func_sig f)).
 Proof. exact wraps_same_signature. Qed.
 Print Assumptions C13_same_sig.
@@ -59,7 +59,7 @@ Theorem C13_refines_spec : forall f inj exp,
       sig_of (b_func g) = Ok s /\
       f_name (b_func g) = f_name f /\ f_doc (b_func g) = f_doc f /\
       f_module (b_func g) = f_module f /\ f_async (b_func g) = f_async f /\
-      b_wrapped_is_func g = true /\
+      d_get (f_dict (b_func g)) K_WRAPPED = Some (f_id f) /\
       b_inv g = inv_of_params (sg_params s)
   | Raise _, Raise _ => True
   | _, _ => False
@@ -97,7 +97,7 @@ Theorem C13_expect_pinned_refuted :
   exists f n, wf_func f /\ n <> 0 /\
     match from_func f with
     | Ok b0 => match add_arg_pinned b0 n None with
-               | Ok b1 => match get_func b1 with
+               | Ok b1 => match get_func b1 0 true with
                           | Ok g => sig_of g = Ok (mkSig [mkP 1 PosOrKw None None; mkP 2 PosOrKw None None;
                                                           mkP 3 PosOrKw (Some 7) None] None)
                           | Raise _ => False
@@ -119,19 +119,54 @@ Print Assumptions C13_expect_pinned_refuted.
    function, all injected/expected lists and all calls with distinct keywords,
    the MODEL's observation satisfies it - so on a run where [agree] holds (model =
    implementation on that case) the implementation's behaviour is the proved one. *)
-Theorem C13_model_satisfies_spec : forall f inj exp fwd calls,
-  wf_func f -> Forall (fun nd => fst nd <> 0) exp ->
+Theorem C13_model_satisfies_spec : forall f steps fwd calls,
+  wf_func f -> steps <> [] -> steps_nonzero steps ->
   Forall (fun c => NoDup (keys (c_kw c))) calls ->
-  (fwd = true -> inj = [] /\ exp = []) ->
-  holds (model_case f inj exp fwd calls) = true.
+  (fwd = true -> forallb plain_step steps = true) ->
+  holds (model_case f steps fwd calls) = true.
 Proof. exact model_holds. Qed.
 Print Assumptions C13_model_satisfies_spec.
 
-Theorem C13_model_agrees_with_itself : forall f inj exp fwd calls,
-  wf_func f -> Forall (fun nd => fst nd <> 0) exp ->
-  agree (model_case f inj exp fwd calls) = true.
+Theorem C13_model_agrees_with_itself : forall f steps fwd calls,
+  wf_func f -> steps_nonzero steps ->
+  agree (model_case f steps fwd calls) = true.
 Proof. exact model_agrees. Qed.
 Print Assumptions C13_model_agrees_with_itself.
+
+(* ---- stacked decorators, and functions that already carry attributes ------------------------------ *)
+(* __wrapped__ of the result is the wrapped function whatever __dict__ that one
+   carries (its own __wrapped__, a __signature__ ...) and whatever the options;
+   absent with hide_wrapped; a copied __signature__ never survives *)
+Theorem C13_wrapped_points_at_func : forall o gid f inj exp g,
+  wf_func f -> Forall (fun nd => fst nd <> 0) exp ->
+  update_wrapper_opt o gid f inj exp = Ok g ->
+  d_get (f_dict (b_func g)) K_WRAPPED = (if o_hide_wrapped o then None else Some (f_id f)) /\
+  d_get (f_dict (b_func g)) K_SIGNATURE = None /\
+  f_id (b_func g) = gid /\ wf_obj (b_func g).
+Proof. exact wrapped_points_at_func. Qed.
+Print Assumptions C13_wrapped_points_at_func.
+
+(* in a stack of any depth every level points at the level right below it *)
+Theorem C13_stack_wrapped_chain : forall steps h, wf_func h -> steps_nonzero steps ->
+  wrapped_chain (f_id h) steps (fst (run_steps h steps)).
+Proof. exact stack_wrapped_chain. Qed.
+Print Assumptions C13_stack_wrapped_chain.
+
+(* a stack of plain wraps of any depth: every level has the base signature, and a
+   call entering the outermost level reaches the base function with the frame it
+   would have seen directly (or is rejected exactly as the base function rejects it) *)
+Theorem C13_stack_call_equiv : forall steps f c,
+  wf_func f -> forallb plain_step steps = true -> steps_nonzero steps ->
+  snd (run_steps f steps) = None -> NoDup (keys (c_kw c)) ->
+  Forall (fun g => sig_of (b_func g) = sig_of f) (fst (run_steps f steps)) /\
+  call_chain f (rev (fst (run_steps f steps))) c = call_func f c.
+Proof. exact stack_call_equiv. Qed.
+Print Assumptions C13_stack_call_equiv.
+
+Theorem C13_stack_plain_builds : forall steps f,
+  wf_func f -> forallb plain_step steps = true -> snd (run_steps f steps) = None.
+Proof. exact stack_plain_builds. Qed.
+Print Assumptions C13_stack_plain_builds.
 
 (* the signature of a well-formed function object is a well-formed signature *)
 Theorem C13_signature_wellformed : forall f, wf_func f -> wf_params (sg_params (func_sig f)) = true.
@@ -198,6 +233,7 @@ Proof. exact ex_call_binds. Qed.
 Example C13_ex_wrapped :
   match update_wrapper ex_f [] [] with
   | Ok g => sig_of (b_func g) = sig_of ex_f /\
+            d_get (f_dict (b_func g)) K_WRAPPED = Some 100 /\ d_get (f_dict (b_func g)) 3 = Some 5 /\
             call_built ex_f g true ex_call =
               (Some (mkCall [10; 20; 30; 40] [(4, 50); (5, 9); (14, 60)]), call_func ex_f ex_call)
   | Raise _ => False
@@ -219,3 +255,13 @@ Example C13_ex_expect :
   /\ update_wrapper ex_f [] [(14, None)] = Raise ValueError
   /\ has_pos_default (func_sig ex_f) = true.
 Proof. exact ex_expect. Qed.
+Example C13_ex_stack :
+  snd (run_steps ex_f ex_steps) = None /\
+  map (fun g => d_get (f_dict (b_func g)) K_WRAPPED) (fst (run_steps ex_f ex_steps)) = [Some 100; Some 101; Some 102] /\
+  map (fun g => d_get (f_dict (b_func g)) 3) (fst (run_steps ex_f ex_steps)) = [Some 5; Some 5; Some 5] /\
+  steps_nonzero ex_steps.
+Proof. exact ex_stack. Qed.
+Example C13_ex_stack_holds :
+  holds (model_case ex_f ex_steps false [ex_call; ex_bad_call]) = true /\
+  holds (model_case ex_f [mkStep [] [] default_options 101; mkStep [] [] default_options 102] true [ex_call; ex_bad_call]) = true.
+Proof. exact ex_stack_holds. Qed.
